@@ -5,6 +5,14 @@ def sim(quick, thorough, qshards=12, tshards=14, **kw):
     d.update(kw)
     return d
 
+def unit(target, quick, thorough, shards=2, **kw):
+    d = {"engine": "unit", "test": "TestUnit", "prop": target, "quick": {"cases": quick, "shards": shards, "timeout": 60}, "thorough": {"cases": thorough, "shards": 4, "timeout": 600}}
+    d.update(kw)
+    return d
+
+def fuzz(name, secs):
+    return {"engine": "unit", "fuzz": name, "quick": {"secs": 0}, "thorough": {"secs": secs}}
+
 A_SIM = [
     "the mock messaging client mirrors the contract of nats/nats.go (decided separately by C18)",
     "goroutine schedules inside the gateway are sampled, not enumerated; message order at both boundaries is owned by the harness",
@@ -54,6 +62,12 @@ CHECKS = {
         "assumptions": A_SIM,
         "parts": [sim(300, 5000)],
     },
+    "C12": {
+        "level": "exploration",
+        "rule": "(a) pattern matcher differential: rapid-generated patterns and names over the token alphabet {a,b,ab,*,>,?,space,e-acute,empty,a*,*a,...} and raw strings, ParseResourcePattern/IsValid/Match against a tokenising reference matcher; (b) collection diff: rapid-generated pairs of sequences (length <= 40, repeated values, b derived from a by edits) and the exhaustive enumeration of all pairs of sequences of length <= 5 over 3 values (132,496 pairs, exhaustive sub-run), events applied by an independent applier must have every index in range, yield exactly b, and be empty for a == b; (c) simulator: system.reset with generated pattern lists against caches with plain and query variants. Non-trivial = valid wildcard pattern with a well-formed name / a != b with a repeated value / reset with wildcard hitting both matching and non-matching cached names; distinct by input hash",
+        "assumptions": ["the reference matcher and the event applier are the trusted oracles", "VerifLCS (hook) calls the unexported lcs routine unchanged"],
+        "parts": [sim(200, 3000, qshards=8, tshards=10), unit("C12-pattern", 60000, 600000), unit("C12-lcs", 30000, 300000), {"engine": "unit", "test": "TestExhaustiveLCS", "prop": "C12-lcs-exhaustive", "quick": {"cases": 1, "shards": 1, "timeout": 60}, "thorough": {"cases": 1, "shards": 1, "timeout": 60}}, fuzz("FuzzPattern", 60)],
+    },
     "C07": {
         "level": "exploration",
         "rule": "rapid stateful generation of request mixes (1-2 connections, subscribe/get/unsubscribe/call/auth/new/ill-formed methods, every outcome and order of the dependent access/get/call answers, events, deletes, revocations), end-of-history epilogue answering everything; oracle: reference client counts responses per id (never two, never unknown, error objects with string code/message) and at quiescence every id on an open connection has exactly one. Non-trivial = >=2 requests for one rid overlapped, or an unsubscribe/unsubscribe event/delete hit a rid with a pending request; distinct by hash of the executed script",
@@ -71,6 +85,8 @@ CHECKS = {
 SIM_NOTE = "trusted: the harness (mock mq, reference client/service, quiescence detector) and rapid; exploration never proves absence; goroutine interleavings inside the gateway are sampled only"
 
 META = {
+    "C12": {"engine": "unit", "design_ref": "6 C12", "technique": "property-based differential testing (rapid) against reference matcher / edit-script applier, exhaustive small-scope enumeration, native fuzzing",
+            "text": "pattern matching and the collection diff are for-all-inputs claims: checked differentially on generated inputs, exhaustively on the small scope, and (thorough) by coverage-guided fuzzing.", "note": "trusted: reference matcher, applier, rapid"},
     "C09": {"engine": "sim", "design_ref": "6 C09", "technique": "stateful property-based testing (rapid); trace invariants on the messaging boundary plus end-state and use-count checks",
             "text": "generated subscribe/unsubscribe/disconnect/delete/error histories incl. names beyond the control-line limit and a 20 ms eviction delay; invariants: get only under an earlier live subscription, data only under an uninterrupted one, no release while used, everything released at the end, use count = subscribers + pending requests at every quiescent point.", "note": SIM_NOTE + "; the production delay of 5 s is replaced by 0 or 20 ms (hook)"},
     "C04": {"engine": "sim", "design_ref": "6 C04", "technique": "stateful property-based testing (rapid); trace invariant linking data frames to valid access grants",
